@@ -3,7 +3,7 @@
   Property theorems only; helper lemmas live in `Lemmas/`.
   Kinds: [R] real arithmetic, [G] generic (any number type, holds of the Float reading itself).
 -/
-import OpwVerif.Lemmas.Fk
+import OpwVerif.Lemmas.Chain
 namespace Opw.C03
 open Opw
 
@@ -35,5 +35,50 @@ theorem chain_length {R : Type} [OpwNum R] (p : Params R) (j : J6 R) : (chain p 
 example : ∃ (p : Params ℝ) (q : J6 ℝ), p.b ≠ 0 ∧ p.a2 ≠ 0 ∧ q.j1 = 100 ∧ forwardTheta p q = (rot6 q, org6 p q) :=
   ⟨⟨1, 2, 3, 4, 5, 6, 7, ⟨0, 0, 0, 0, 0, 0⟩, ⟨1, 1, 1, 1, 1, 1⟩, 6⟩, ⟨100, 1, 2, 3, 4, 5⟩,
     by norm_num, by norm_num, rfl, closed_form_eq_reference_chain _ _⟩
+
+/-- [R] `forward` equals the last of the six link poses of `forward_with_joint_poses`: same
+translation, same rotation (as rotation matrices; quaternions are determined up to sign), and both
+are unit quaternions. Holds for every parameter set, sign/offset convention and joint vector. -/
+theorem forward_eq_last_link (p : Params ℝ) (j : J6 ℝ) :
+    ∃ l6, (chain p j)[5]? = some l6 ∧ (forward p j).t = l6.t ∧ (forward p j).q.toMat = l6.q.toMat ∧
+      (forward p j).q.normSq = 1 ∧ l6.q.normSq = 1 := by
+  obtain ⟨l6, h, ht, hr, hu, hl⟩ := forwardTheta_last_link p (thetaOf p j)
+  exact ⟨l6, h, ht, hr, hu, hl⟩
+
+/-- [R] every link pose is the product of the elementary joint transforms up to that link: its rotation
+matrix is `Rz(θ1)·Ry(θ2)·…` and its origin the accumulated offsets; all link rotations are unit
+quaternions, i.e. proper rotations (`IsRot`: orthogonal with determinant one). -/
+theorem links_are_reference_chain (p : Params ℝ) (j : J6 ℝ) :
+    ∃ l1 l2 l3 l4 l5 l6, chain p j = [l1, l2, l3, l4, l5, l6] ∧
+      LinkIs l1 (rot1 (thetaOf p j)) (org1 p (thetaOf p j)) ∧ LinkIs l2 (rot2 (thetaOf p j)) (org2 p (thetaOf p j)) ∧
+      LinkIs l3 (rot3 (thetaOf p j)) (org3 p (thetaOf p j)) ∧ LinkIs l4 (rot4 (thetaOf p j)) (org4 p (thetaOf p j)) ∧
+      LinkIs l5 (rot5 (thetaOf p j)) (org5 p (thetaOf p j)) ∧ LinkIs l6 (rot6 (thetaOf p j)) (org6 p (thetaOf p j)) :=
+  chainTheta_links p (thetaOf p j)
+
+theorem link_rotation_proper {l : Iso ℝ} {r : M3 ℝ} {o : V3 ℝ} (h : LinkIs l r o) : IsRot l.q.toMat :=
+  IsRot_toMat l.q h.unit
+
+/-- [R] consecutive link origins are separated by exactly the parameter-defined offsets:
+`‖o2−o1‖² = a1²+b²`, `‖o3−o2‖² = c2²`, `‖o4−o3‖² = a2²`, `‖o5−o4‖² = c3²`, `‖o6−o5‖² = c4²`, `o1 = (0,0,c1)`. -/
+theorem link_offsets (p : Params ℝ) (q : J6 ℝ) :
+    org1 p q = ⟨0, 0, p.c1⟩ ∧
+    ((org2 p q).sub (org1 p q)).normSq = p.a1 * p.a1 + p.b * p.b ∧
+    ((org3 p q).sub (org2 p q)).normSq = p.c2 * p.c2 ∧
+    ((org4 p q).sub (org3 p q)).normSq = p.a2 * p.a2 ∧
+    ((org5 p q).sub (org4 p q)).normSq = p.c3 * p.c3 ∧
+    ((org6 p q).sub (org5 p q)).normSq = p.c4 * p.c4 := by
+  have sub_add : ∀ (a b : V3 ℝ), (a.add b).sub a = b := by
+    intro a b; apply V3.ext' <;> simp [V3.add, V3.sub]
+  have r1 : IsRot (rot1 q) := IsRot_rz _
+  have r2 : IsRot (rot2 q) := r1.mul (IsRot_ry _)
+  have r3 : IsRot (rot3 q) := r2.mul (IsRot_ry _)
+  have r4 : IsRot (rot4 q) := r3.mul (IsRot_rz _)
+  have r5 : IsRot (rot5 q) := r4.mul (IsRot_ry _)
+  refine ⟨rfl, ?_, ?_, ?_, ?_, ?_⟩
+  · rw [org2, sub_add, r1.normSq_mulVec]; simp [V3.normSq_eq]
+  · rw [org3, sub_add, r2.normSq_mulVec]; simp [V3.normSq_eq]
+  · rw [org4, sub_add, r3.normSq_mulVec]; simp [V3.normSq_eq]
+  · rw [org5, sub_add, r4.normSq_mulVec]; simp [V3.normSq_eq]
+  · rw [org6, sub_add, r5.normSq_mulVec]; simp [V3.normSq_eq]
 
 end Opw.C03
